@@ -821,6 +821,7 @@ pub fn all() -> Vec<Box<dyn Check>> {
         min_nt: (200, 2000),
         required: vec!["continuations_judged", "quiescent_in_the_end"],
     }),
+    Box::new(crate::inbound::C08),
     Box::new(crate::leak::C17),
     Box::new(crate::twins::C13),
     Box::new(crate::twins::C15),
